@@ -184,6 +184,7 @@ class Inliner:
         chain = [frozenset([fn.key])] * len(blocks)
         self.depth, self.chain = depth, chain
         self.inlined = []
+        self._fused = {}
         i = 0
         while i < len(blocks):
             if len(blocks) > MAX_BLOCKS:
@@ -191,7 +192,7 @@ class Inliner:
             b = blocks[i]
             t = b["term"]
             if t["k"] == "call" and depth[i] < self.max_depth:
-                if self._try_combinator(i, b, t) or self._try_direct(i, b, t):
+                if self._try_fusion(i, b, t) or self._try_combinator(i, b, t) or self._try_direct(i, b, t):
                     continue  # re-examine the same block index (its terminator is now a goto) -> moves on next iteration
             i += 1
         if self.inlined:
@@ -274,6 +275,184 @@ class Inliner:
         if not self.policy(callee, self.depth[i]):
             return False
         self._splice(i, callee, t["args"], t.get("dest"), t.get("t"), t.get("unwind"), t.get("line", 0))
+        return True
+
+    # ------------------------------------------------------------------------------------------------------------
+    # lazy iterator adapters: `next` on map/filter/take_while/inspect adapters is expanded into `next` on the source
+    # iterator plus the closure; `collect` into a Vec becomes a push loop.
+    FUSABLE = {"map": False, "filter": True, "take_while": True, "inspect": True}   # name -> closure takes &item
+
+    def _single_def(self, l):
+        """('assign', rvalue) or ('call', block index, terminator) if local l has exactly one definition."""
+        found = []
+        for bi, blk in enumerate(self.blocks):
+            for st in blk["stmts"]:
+                if st["k"] == "assign" and st["lhs"]["l"] == l and not st["lhs"]["p"]:
+                    found.append(("assign", st["rv"]))
+            t = blk["term"]
+            if t["k"] == "call" and t.get("dest") and t["dest"]["l"] == l and not t["dest"]["p"]:
+                found.append(("call", bi, t))
+        return found[0] if len(found) == 1 else None
+
+    def _adapter_of(self, l, hops=8):
+        """Follow local l back through moves, `&mut` borrows and identity conversions to a fusable adapter call."""
+        for _ in range(hops):
+            d = self._single_def(l)
+            if d is None:
+                return None
+            if d[0] == "assign":
+                rv = d[1]
+                if rv["k"] == "use" and rv["op"]["k"] in ("copy", "move") and not rv["op"]["pl"]["p"]:
+                    l = rv["op"]["pl"]["l"]
+                    continue
+                if rv["k"] == "ref" and (not rv["pl"]["p"] or [x["k"] for x in rv["pl"]["p"]] == ["deref"]):
+                    l = rv["pl"]["l"]   # borrow, or reborrow through a reference local
+                    continue
+                return None
+            _k, bi, t = d
+            c = callee_of(t)
+            if c is None or not t["args"]:
+                return None
+            name = c.get("name")
+            a0 = t["args"][0]
+            if name in ("into_iter", "by_ref") and a0["k"] in ("copy", "move") and not a0["pl"]["p"]:
+                # IntoIterator for an iterator is the identity; only follow when the source is itself an adapter
+                inner = self._adapter_of(a0["pl"]["l"], hops - 1)
+                return inner
+            if name in self.FUSABLE and ((c.get("trait") or c.get("of_trait") or "").endswith("iter::Iterator")) and len(t["args"]) == 2:
+                return bi, t, name
+            if (bi, "fused") in self._fused:
+                return bi, t, self._fused[(bi, "fused")][2]
+            return None
+        return None
+
+    def _try_fusion(self, i, b, t):
+        if not self.combinators:
+            return False
+        c = callee_of(t)
+        if c is None:
+            return False
+        name = c.get("name")
+        is_iter = (c.get("trait") or c.get("of_trait") or "").endswith("iter::Iterator")
+        if name == "collect" and is_iter:
+            return self._try_collect(i, b, t)
+        if name != "next" or not is_iter or c.get("synthetic_src"):
+            return False
+        a0 = t["args"][0]
+        if a0["k"] not in ("copy", "move") or a0["pl"]["p"] or t.get("dest") is None or t.get("t") is None:
+            return False
+        ad = self._adapter_of(a0["pl"]["l"])
+        if ad is None:
+            return False
+        abi, at, aname = ad
+        st = self._fused.get(abi)
+        if st is None:
+            # rewrite the adapter construction: keep the source iterator and the closure in locals of their own
+            ck, cop = self._closure_of(at["args"][1])
+            if ck is None:
+                return False
+            line = at.get("line", 0)
+            ab = self.blocks[abi]
+            S = self._new_local(at["atys"][0] if at.get("atys") else "?")
+            ab["stmts"].append(_assign(S, _use(copy.deepcopy(at["args"][0])), line))
+            if cop["k"] == "const":
+                CL = None
+            else:
+                CL = self._new_local(at["atys"][1] if at.get("atys") and len(at["atys"]) > 1 else "?")
+                ab["stmts"].append(_assign(CL, _use(copy.deepcopy(cop)), line))
+            if at.get("t") is None:
+                return False
+            ab["term"] = {"k": "goto", "t": at["t"], "line": line, "exp": False}
+            st = (S, CL, aname, ck, cop)
+            self._fused[abi] = st
+            self._fused[(abi, "fused")] = st
+            self.inlined.append("<iter::%s>" % aname)
+            self.absorbed.add(ck)
+        S, CL, aname, ck, cop = st
+        clop = copy.deepcopy(cop) if CL is None else _cp(CL)
+        by_ref = self.FUSABLE[aname]
+        line = t.get("line", 0)
+        d, ch, cleanup = self.depth[i], self.chain[i], b["cleanup"]
+        # head: tmp = next(&mut S)
+        sref = self._new_local("&mut ?")
+        b["stmts"].append(_assign(sref, {"k": "ref", "bk": "mut", "pl": {"l": S, "p": []}}, line))
+        head = self._new_block(d, ch, cleanup, line)
+        b["term"] = {"k": "goto", "t": head, "line": line, "exp": False}
+        nx = self._new_local("std::option::Option<?>")
+        sw = self._new_block(d, ch, cleanup, line)
+        fn = dict(NEXT_FN)
+        self.blocks[head]["term"] = {"k": "call", "f": {"k": "const", "ty": "fn next", "fn": fn}, "args": [_cp(sref)], "atys": ["&mut ?"],
+                                     "dest": {"l": nx, "p": []}, "dty": "std::option::Option<?>", "t": sw,
+                                     "unwind": t.get("unwind", "continue"), "line": line, "exp": False}
+        dl = self._new_local("isize")
+        self.blocks[sw]["stmts"].append(_assign(dl, {"k": "discr", "pl": {"l": nx, "p": []}}, line))
+        end = self._new_block(d, ch, cleanup, line)
+        body = self._new_block(d, ch, cleanup, line)
+        self.blocks[sw]["term"] = {"k": "switch", "op": _mv(dl), "dty": "isize", "vals": [0], "tgts": [end], "otherwise": body, "line": line, "exp": False}
+        _finish(self, end, t, _agg(OPT, "None", 0, []))
+        item = _variant_field({"l": nx, "p": []}, "Some", 1, OPT)
+        rl = self._new_local(self.src[ck].locals[0]["ty"])
+        after = self._new_block(d, ch, cleanup, line)
+        val = _ref_of(self, body, copy.deepcopy(item), line) if by_ref else _mvp(copy.deepcopy(item))
+        self._call_closure(body, ck, clop, [val], rl, after, t.get("unwind"), line)
+        if aname == "map":
+            _finish(self, after, t, _agg(OPT, "Some", 1, [_mv(rl)]))
+        elif aname == "inspect":
+            _finish(self, after, t, _agg(OPT, "Some", 1, [_mvp(copy.deepcopy(item))]))
+        elif aname == "filter":
+            _bool_branch(self, after, rl, t, lambda y: _finish(self, y, t, _agg(OPT, "Some", 1, [_mvp(copy.deepcopy(item))])),
+                         lambda n: _goto(self, n, head, line))
+        elif aname == "take_while":
+            _bool_branch(self, after, rl, t, lambda y: _finish(self, y, t, _agg(OPT, "Some", 1, [_mvp(copy.deepcopy(item))])),
+                         lambda n: _finish(self, n, t, _agg(OPT, "None", 0, [])))
+        return True
+
+    def _try_collect(self, i, b, t):
+        """`iter.collect::<Vec<_>>()` over a fusable adapter chain -> explicit push loop."""
+        dty = (t.get("dty") or "")
+        if not dty.startswith("std::vec::Vec<") or t.get("dest") is None or t.get("t") is None:
+            return False
+        a0 = t["args"][0]
+        if a0["k"] not in ("copy", "move") or a0["pl"]["p"]:
+            return False
+        if self._adapter_of(a0["pl"]["l"]) is None:
+            return False
+        line = t.get("line", 0)
+        d, ch, cleanup = self.depth[i], self.chain[i], b["cleanup"]
+        it = self._new_local(t["atys"][0] if t.get("atys") else "?")
+        b["stmts"].append(_assign(it, _use(copy.deepcopy(a0)), line))
+        vec = self._new_local(dty)
+        mk = self._new_block(d, ch, cleanup, line)
+        b["term"] = {"k": "goto", "t": mk, "line": line, "exp": False}
+        head0 = self._new_block(d, ch, cleanup, line)
+        self.blocks[mk]["term"] = {"k": "call", "f": {"k": "const", "ty": "fn new", "fn": {
+            "key": "alloc::vec::{impl#0}::new", "path": "std::vec::Vec::<T>::new", "name": "new", "dk": "AssocFn",
+            "self_ty": "std::vec::Vec<T>", "self_adt": "std::vec::Vec", "local": False, "synthetic": True}},
+            "args": [], "atys": [], "dest": {"l": vec, "p": []}, "dty": dty, "t": head0, "unwind": t.get("unwind", "continue"), "line": line, "exp": False}
+        itref = self._new_local("&mut ?")
+        self.blocks[head0]["stmts"].append(_assign(itref, {"k": "ref", "bk": "mut", "pl": {"l": it, "p": []}}, line))
+        head = self._new_block(d, ch, cleanup, line)
+        _goto(self, head0, head, line)
+        nx = self._new_local("std::option::Option<?>")
+        sw = self._new_block(d, ch, cleanup, line)
+        self.blocks[head]["term"] = {"k": "call", "f": {"k": "const", "ty": "fn next", "fn": dict(NEXT_FN)}, "args": [_cp(itref)], "atys": ["&mut ?"],
+                                     "dest": {"l": nx, "p": []}, "dty": "std::option::Option<?>", "t": sw,
+                                     "unwind": t.get("unwind", "continue"), "line": line, "exp": False}
+        dl = self._new_local("isize")
+        self.blocks[sw]["stmts"].append(_assign(dl, {"k": "discr", "pl": {"l": nx, "p": []}}, line))
+        end = self._new_block(d, ch, cleanup, line)
+        body = self._new_block(d, ch, cleanup, line)
+        self.blocks[sw]["term"] = {"k": "switch", "op": _mv(dl), "dty": "isize", "vals": [0], "tgts": [end], "otherwise": body, "line": line, "exp": False}
+        _finish(self, end, t, _use(_mv(vec)))
+        vref = self._new_local("&mut " + dty)
+        self.blocks[body]["stmts"].append(_assign(vref, {"k": "ref", "bk": "mut", "pl": {"l": vec, "p": []}}, line))
+        unit = self._new_local("()")
+        self.blocks[body]["term"] = {"k": "call", "f": {"k": "const", "ty": "fn push", "fn": {
+            "key": "alloc::vec::{impl#1}::push", "path": "std::vec::Vec::<T, A>::push", "name": "push", "dk": "AssocFn",
+            "self_ty": "std::vec::Vec<T, A>", "self_adt": "std::vec::Vec", "local": False, "synthetic": True}},
+            "args": [_mv(vref), _mvp(_variant_field({"l": nx, "p": []}, "Some", 1, OPT))], "atys": ["&mut " + dty, "?"],
+            "dest": {"l": unit, "p": []}, "dty": "()", "t": head, "unwind": t.get("unwind", "continue"), "line": line, "exp": False}
+        self.inlined.append("<iter::collect>")
         return True
 
     # ------------------------------------------------------------------------------------------------------------
